@@ -592,7 +592,7 @@ func runSimDial(w *bufio.Writer, seed uint64, n int, args []string) {
 		sdRespec(r.Fork(), 20+n/5, emit)
 	}
 	// --- C: nil spec == plain Transport ---------------------------------------------------
-	nNil := 6 + n/10
+	nNil := 10 + n/5
 	for i := 0; i < nNil && only == ""; i++ {
 		rr := r.Fork()
 		c := sdCase{Name: "UTransport{QUICSpec:nil}", Q: "nil-spec", Dials: 2, EchoN: 20000, SameEnv: rr.Bool(), GapMs: sdGap(rr)}
